@@ -28,6 +28,26 @@ def rand_field(npr, N):
     return npr.normal(size=(N, N)) + 1j * npr.normal(size=(N, N))
 
 
+def gen_spacing(rng, wvl):
+    """input sampling: usually many wavelengths per pixel, sometimes comparable to or finer than the wavelength"""
+    u = rng.random()
+    if u < 0.7:
+        return rng.loguniform(1e-4, 1e-2)
+    if u < 0.85:
+        return wvl * rng.uniform(0.2, 0.9)
+    return wvl * rng.uniform(1.0, 5.0)
+
+
+def gen_mag(rng):
+    """magnification: exactly 1, generic, or within a fraction of a percent of 1"""
+    u = rng.random()
+    if u < 0.35:
+        return 1.0
+    if u < 0.8:
+        return rng.uniform(0.3, 3.0)
+    return 1.0 + rng.choice([-1, 1]) * rng.loguniform(1e-6, 5e-3)
+
+
 def gen_cases(rng, tier, pid):
     npr = rng.nprng()
     sizes = [2, 4, 6, 8] if tier == "quick" else [2, 4, 6, 8, 10, 12]
@@ -41,8 +61,8 @@ def gen_cases(rng, tier, pid):
         for _ in range(reps):
             U = rand_field(npr, N)
             wvl = rng.uniform(0.4e-6, 2e-6)
-            d1 = rng.loguniform(1e-4, 1e-2)
-            mag = rng.choice([1.0, 1.0, rng.uniform(0.3, 3.0)])
+            d1 = gen_spacing(rng, wvl)
+            mag = gen_mag(rng)
             d2 = d1 * mag
             z = rng.choice([-1, 1]) * rng.loguniform(0.05, 50.0) * (N * d1 * d1 / wvl)   # Fresnel numbers around 1
             out = op.angularSpectrum(U, wvl, d1, d2, z)
